@@ -19,6 +19,7 @@ import io
 import os
 import pathlib
 import shutil
+import sys
 import threading
 
 _real = {}
@@ -46,6 +47,7 @@ class Monitor:
         self.lock = threading.Lock()
         self.fdpath = {}
         self.watch_src = True
+        self.emulate_flock = False
         self.listdir_sort = None
 
     def rel(self, path):
@@ -98,7 +100,8 @@ def _mk_probe(name):
     _real["path." + name] = real
 
     def f(path):
-        _emit("probe", path, name)
+        fr = sys._getframe(1)
+        _emit("probe", path, (name, fr.f_code.co_name, id(fr), fr.f_lineno))
         with _Suppress():
             return real(path)
     f.__name__ = name
@@ -304,7 +307,18 @@ def _flock(fd, op):
             inj = _emit("flock", p)
             if inj:
                 _raise(inj, p)
+            if m.emulate_flock:
+                return None          # the controlled scheduler owns file locks
     return _real["fcntl.flock"](fd, op)
+
+
+def _get_file_paths(directory):
+    # the model lists the metadata directory whether or not it exists
+    with _Suppress():
+        ex = _real["path.exists"](directory)
+    if not ex:
+        _emit("listdir", directory)
+    return _real["_get_file_paths"](directory)
 
 
 class _TmpWrap:
@@ -409,6 +423,8 @@ def install():
     _real["shutil.move"] = shutil.move
     _real["path.getsize"] = os.path.getsize
     _real["NamedTemporaryFile"] = fhs.NamedTemporaryFile
+    _real["_get_file_paths"] = fhs.FileHashStore._get_file_paths
+    fhs.FileHashStore._get_file_paths = staticmethod(_get_file_paths)
     for n in ("isfile", "exists", "isdir"):
         setattr(os.path, n, _mk_probe(n))
     os.path.getsize = _getsize
